@@ -144,3 +144,11 @@ claim("C14", "other", "inconsistent-belief rule on the span parser's sentinel; w
       "published rules turns Left into Right; the spelling of empty ranges (a conformance fault known from earlier dynamic work) has no structural signature and is not decided.",
       BASE_NOTE,
       "DESIGN.md section 3, C14")
+claim("C02", "other", "affine/guard rules on the recursive insertion's depth budget and on the scapegoat rebuild site",
+      "Decides ONLY that the mechanism enforcing the bound is wired, not the bound itself: the recursive insertion's depth budget decreases by a positive constant on both "
+      "descents, creating a node with the budget exhausted raises the 'too deep' flag, Add/Replace start the budget from limit(size[+1]); under a raised flag and "
+      "height > limit(subtree size) the subtree is rebuilt with (sibling size + 1 + flagged size), the rebuilt subtree is returned and the flag cleared. Each is a necessary "
+      "condition of the height bound (without it ascending insertions grow an unbounded path). Does NOT decide the numeric bound (floating-point limitFunc, scapegoat choice, "
+      "that the DSW rebuild balances, delete-side threshold) nor the minimum-height claim for New - for those no sound static argument is in reach.",
+      BASE_NOTE + " This is the weakest claim in the manifest: a wiring check, kept because each obligation is a genuine necessary condition.",
+      "DESIGN.md section 3, C02 and section 8.2")
